@@ -132,7 +132,7 @@ type WireReader struct {
 }
 
 func (r *WireReader) nextSeg() bool {
-	if r.seg < len(r.wire) && r.pos >= len(r.wire[r.seg]) {
+	for r.seg < len(r.wire) && r.pos >= len(r.wire[r.seg]) {
 		r.seg++
 		r.pos = 0
 	}
